@@ -31,7 +31,12 @@ from .exceptions import (
     CommentParseError,
     MissingReuseInfoError,
 )
-from .extract import contains_reuse_info, extract_reuse_info
+from .extract import (
+    REUSE_IGNORE_END,
+    REUSE_IGNORE_START,
+    contains_reuse_info,
+    extract_reuse_info,
+)
 from .i18n import _
 
 _LOGGER = logging.getLogger(__name__)
@@ -190,6 +195,12 @@ def _find_first_spdx_comment(
     indices = _indices_of_newlines(text)
 
     for index in indices:
+        # Lines inside an ignore block are not a header, even if the search
+        # arrives at them without the start marker.
+        if text.rfind(REUSE_IGNORE_START, 0, index) > text.rfind(
+            REUSE_IGNORE_END, 0, index
+        ):
+            continue
         try:
             comment = style.comment_at_first_character(text[index:])
         except CommentParseError:
